@@ -3,7 +3,13 @@ package c10
 // Mutation symbols of DESIGN.md C10: inserted at every character boundary.
 var mutationSymbols = []string{"(?=a)", "(?!a)", `\1`, `\2`, "(", ")", "[", "]", "{", "}", "*", "+", "?", `\`, `\8`, `\c`, `\u12`, `\x1`, "|", "/",
 	// round 6: RE2-only class syntax, multi-digit octal escapes, RE2 repeat limit
-	"[:alpha:]", "[[:digit:]]", `\12`, `\101`, `\1011`, "{1001}"}
+	"[:alpha:]", "[[:digit:]]", `\12`, `\101`, `\1011`, "{1001}",
+	// round 7: two-digit decimal escapes (back-references when the pattern has that many groups), identity escape of a non-ASCII character
+	`\10`, `\11`, "\\\u2014"}
+
+// manyGroupBases are extra mutation bases with 9, 10 and 11 capturing groups, so
+// that \10 and \11 are back-references (15.10.2.9) in some of the mutants.
+var manyGroupBases = []string{"(a)(b)(a)(b)(a)(b)(a)(b)(a)", "(a)(b)(a)(b)(a)(b)(a)(b)(a)(b)", "(a)(b)(a)(b)(a)(b)(a)(b)(a)(b)(a)"
 
 // MutatedPatterns returns every single-symbol insertion into every base
 // pattern, in generation order, without duplicates and without results that
